@@ -712,29 +712,14 @@ def misc_requests(P, tier):
     for na, a in [("M", M), ("N", P.N), ("Zn", Zn), ("Zni", Zni), ("CT1", P.CT1), ("LT3", P.LT3)]:
         reqs.append(Req("transpose", f"{na}.T", (lambda a=a: a.T), [a],
                         raw=(lambda s, a=a: G("Transposed", s.e(a))),
-                        pyraw=(lambda a=a: None), info={"pyraw_transposed": a}))
+                        pyraw=(lambda a=a: raw_node(C.Transposed, a)), hyp="cplx"))
     # power operator
     reqs.append(Req("pow", "f**2", lambda: f ** 2, [f], hyp="power",
                     raw=lambda s: G("Power", s.e(f), s.e(as_ufl(2))), pyraw=lambda: raw_node(Power, f, as_ufl(2))))
     reqs.append(Req("pow", "v**2", lambda: v ** 2, [v], raw=lambda s: G("Inner", s.e(v), s.e(v)),
-                    pyraw=lambda: None, info={"pyraw_inner": (v, v)}))
+                    pyraw=lambda: raw_node(C.Inner, v, v), hyp="cplx"))
     reqs.append(Req("pow", "f**g", lambda: f ** g, [f, g], hyp="power",
                     raw=lambda s: G("Power", s.e(f), s.e(g)), pyraw=lambda: raw_node(Power, f, g)))
-    # tensor algebra constructors: zero folding and scalar cases
-    TA = [("outer", ufl.outer, "Outer"), ("inner", ufl.inner, "Inner"), ("dot", ufl.dot, "Dot")]
-    pairs = [("v", v, "w", w), ("v", v, "Zv", P.Zv), ("Zv", P.Zv, "v", v), ("f", f, "g", g), ("M", M, "M2", P.M2),
-             ("Zm", P.Zm, "M", M), ("w", w, "v", v), ("M2", P.M2, "M", M), ("M", M, "v", v), ("f", f, "Z", Zero())]
-    for (nm, fn, node), (na, a, nb, b) in itertools.product(TA, pairs):
-        sa, sb = a.ufl_shape, b.ufl_shape
-        if nm == "inner" and sa != sb:
-            continue
-        if nm == "dot" and not ((sa and sb and sa[-1] == sb[0]) or (not sa and not sb)):
-            continue
-        if nm == "dot" and not sa:
-            node = "Product"       # the scalar "dot product" is the product (Core's den of Dot needs rank >= 1)
-        reqs.append(Req(nm, f"{nm}({na}, {nb})", (lambda fn=fn, a=a, b=b: fn(a, b)), [a, b], hyp="cplx",
-                        raw=(lambda s, node=node, a=a, b=b: G(node, s.e(a), s.e(b))),
-                        pyraw=(lambda: None), info={"pyraw_cls": node, "ab": (a, b)}))
     # conditional
     cnd = ufl.lt(f, g)
     cl = ufl.lt(as_ufl(1), as_ufl(2))
@@ -755,7 +740,7 @@ def misc_requests(P, tier):
         for na, a in [("f", f), ("fg", P.fg), ("v0", v[0])]:
             reqs.append(Req("math", f"{nm}({na})", (lambda fn=fn, a=a: fn(a)), [a],
                             raw=(lambda s, tag=tag, a=a: G("Math", tag, s.e(a))),
-                            pyraw=(lambda: None), info={"pyraw_math": (nm, a)}))
+                            pyraw=(lambda nm=nm, a=a: raw_node(getattr(C, nm.capitalize()), a))))
         for x in (2.5, 1, 0):
             if nm == "ln" and x == 0:
                 continue
@@ -765,8 +750,98 @@ def misc_requests(P, tier):
     for na, a in [("f", f), ("v", v), ("vi", P.vi)]:
         for sd, bl in (("+", "true"), ("-", "false")):
             reqs.append(Req("restricted", f"{na}('{sd}')", (lambda a=a, sd=sd: a(sd)), [a],
-                            raw=(lambda s, a=a, bl=bl: G("Restricted", bl, s.e(a))), pyraw=(lambda: None),
-                            info={"pyraw_restricted": (a, sd)}))
+                            raw=(lambda s, a=a, bl=bl: G("Restricted", bl, s.e(a))),
+                            pyraw=(lambda a=a, sd=sd: raw_node(C.PositiveRestricted if sd == "+" else C.NegativeRestricted, a))))
+    return reqs
+
+
+def tensoralgebra_requests(P, tier):
+    """Constructors and public wrappers of ufl/tensoralgebra.py / ufl/operators.py at every combination of
+    operand ranks (scalar / vector / matrix), zeros with and without free indices, operands with free
+    indices and compound operands.  The raw request is the compound node itself (Core's den gives it its
+    mathematical meaning, incl. the complex conjugates of outer/inner)."""
+    reqs = []
+    i, j = P.i, P.j
+    f, g, v, w, M = P.f, P.g, P.v, P.w, P.M
+    u3b = uflgen.coef((3,))
+    Zu3 = Zero((3,))
+    Zmi = Zero((2, 2), (i.count(),), (2,))
+    Zs = Zero()
+    pool = [("f", f), ("g", g), ("fg", P.fg), ("2", as_ufl(2)), ("vi", P.vi), ("wj", P.wj), ("Z", Zs), ("Zi", P.Zi),
+            ("v", v), ("w", w), ("u3", P.u3), ("u3b", u3b), ("Zv", P.Zv), ("Zvi", P.Zvi), ("Zu3", Zu3),
+            ("LT1", P.LT1), ("LT2", P.LT2), ("CT2", P.CT2),
+            ("M", M), ("M2", P.M2), ("N", P.N), ("Zm", P.Zm), ("Zmi", Zmi), ("CT1", P.CT1), ("LT3", P.LT3)]
+    if tier == "thorough":
+        pool.append(("T3", P.T3))
+    binary = [("outer", ufl.outer, C.Outer, "Outer"), ("inner", ufl.inner, C.Inner, "Inner"),
+              ("dot", ufl.dot, C.Dot, "Dot"), ("cross", ufl.cross, C.Cross, "Cross")]
+    for (nm, fn, cls, node), (na, a), (nb, b) in itertools.product(binary, pool, pool):
+        sa, sb = a.ufl_shape, b.ufl_shape
+        fa, fb = fi_of(a), fi_of(b)
+        if set(fa) & set(fb):
+            continue            # shared free indices: no requested meaning (non-overlapping merge)
+        if len(sa) + len(sb) > 4:
+            continue
+        if nm == "inner" and sa != sb:
+            continue
+        if nm == "dot" and not ((sa and sb and sa[-1] == sb[0]) or (not sa and not sb)):
+            continue
+        if nm == "cross" and not (sa == (3,) and sb == (3,)):
+            continue
+        if nm == "dot" and len(sa) + len(sb) - 2 > 2 and tier == "quick":
+            continue
+        rawnode = "Product" if (nm == "dot" and not sa) else node    # scalar "dot" is the product
+        rawcls = C.Product if rawnode == "Product" else cls
+        for via, th in (("fn", (lambda fn=fn, a=a, b=b: fn(a, b))), ("cls", (lambda cls=cls, a=a, b=b: cls(a, b)))):
+            reqs.append(Req(nm, f"{nm}{'' if via == 'fn' else '.cls'}({na}, {nb})", th, [a, b], hyp="cplx",
+                            raw=(lambda s, rawnode=rawnode, a=a, b=b: G(rawnode, s.e(a), s.e(b))),
+                            pyraw=(lambda rawcls=rawcls, a=a, b=b: raw_node(rawcls, a, b))))
+    # n-ary outer
+    for (na, a), (nb, b), (nc, c) in [(("f", f), ("v", v), ("w", w)), (("v", v), ("f", f), ("w", w)),
+                                      (("f", f), ("g", g), ("v", v)), (("v", v), ("w", w), ("f", f))]:
+        reqs.append(Req("outer", f"outer({na}, {nb}, {nc})", (lambda a=a, b=b, c=c: ufl.outer(a, b, c)), [a, b, c],
+                        hyp="cplx", raw=(lambda s, a=a, b=b, c=c: G("Outer", G("Outer", s.e(a), s.e(b)), s.e(c))),
+                        pyraw=(lambda a=a, b=b, c=c: raw_node(C.Outer, raw_node(C.Outer, a, b), c))))
+    unary = [("transpose", ufl.transpose, C.Transposed, "Transposed", lambda x: len(x.ufl_shape) in (0, 2)),
+             ("perp", ufl.perp, C.Perp, "Perp", lambda x: x.ufl_shape == (2,)),
+             ("tr", ufl.tr, C.Trace, "Trace", lambda x: len(x.ufl_shape) == 2 and x.ufl_shape[0] == x.ufl_shape[1]),
+             ("det", ufl.det, C.Determinant, "Determinant",
+              lambda x: (x.ufl_shape == () or (len(x.ufl_shape) == 2 and x.ufl_shape[0] == x.ufl_shape[1]))
+              and not x.ufl_free_indices),
+             ("inv", ufl.inv, C.Inverse, "Inverse",
+              lambda x: (x.ufl_shape == () or (len(x.ufl_shape) == 2 and x.ufl_shape[0] == x.ufl_shape[1]))
+              and not x.ufl_free_indices and not isinstance(x, Zero)),
+             ("cofac", ufl.cofac, C.Cofactor, "Cofactor",
+              lambda x: len(x.ufl_shape) == 2 and x.ufl_shape[0] == x.ufl_shape[1] and not x.ufl_free_indices
+              and not isinstance(x, Zero)),
+             ("dev", ufl.dev, C.Deviatoric, "Deviatoric",
+              lambda x: len(x.ufl_shape) == 2 and x.ufl_shape[0] == x.ufl_shape[1] and not x.ufl_free_indices),
+             ("skew", ufl.skew, C.Skew, "Skew",
+              lambda x: len(x.ufl_shape) == 2 and x.ufl_shape[0] == x.ufl_shape[1] and not x.ufl_free_indices),
+             ("sym", ufl.sym, C.Sym, "Sym",
+              lambda x: len(x.ufl_shape) == 2 and x.ufl_shape[0] == x.ufl_shape[1] and not x.ufl_free_indices)]
+    for (nm, fn, cls, node, ok), (na, a) in itertools.product(unary, pool):
+        good = ok(a)
+        if nm in ("perp", "det", "inv", "cofac") and a.ufl_free_indices:
+            continue        # index-free operator types: operands with free indices have no requested meaning
+        if nm == "tr" and len(a.ufl_shape) == 2 and a.ufl_shape[0] != a.ufl_shape[1]:
+            continue        # trace of a non-square matrix: accepted by Trace, no requested meaning
+        reqs.append(Req(nm, f"{nm}({na})", (lambda fn=fn, a=a: fn(a)), [a], hyp="cplx", must_raise=not good,
+                        raw=(lambda s, node=node, a=a: G(node, s.e(a))),
+                        pyraw=(lambda cls=cls, a=a: raw_node(cls, a))))
+    # diag / diag_vector: component-wise requests
+    for na, a in [("v", v), ("M", M), ("Zv", P.Zv), ("LT1", P.LT1), ("CT1", P.CT1)]:
+        n_ = a.ufl_shape[-1]
+        r = len(a.ufl_shape)
+        reqs.append(Req("diag", f"diag({na})", (lambda a=a: ufl.diag(a)), [a], exp_shape=(n_, n_), exp_fi=fi_of(a),
+                        craw=(lambda s, c, a=a, r=r: (G("Indexed", s.e(a), s.mi((c[0],) * r)) if c[0] == c[1]
+                                                     else "(Zero [] [])")),
+                        pycraw=(lambda c, a=a, r=r: (raw_node(Indexed, a, mi_of((c[0],) * r)) if c[0] == c[1] else Zero()))))
+        if r == 2:
+            reqs.append(Req("diag_vector", f"diag_vector({na})", (lambda a=a: ufl.diag_vector(a)), [a],
+                            exp_shape=(n_,), exp_fi=fi_of(a),
+                            craw=(lambda s, c, a=a: G("Indexed", s.e(a), s.mi((c[0], c[0])))),
+                            pycraw=(lambda c, a=a: raw_node(Indexed, a, mi_of((c[0], c[0]))))))
     return reqs
 
 
@@ -774,9 +849,12 @@ def hot(req):
     """requests that reach a folding branch (zero / literal operands, nested shortcuts): always kept"""
     if req.group == "getitem" and isinstance(req.operands[0], (C.Identity, C.PermutationSymbol)):
         return True
+    if req.group in ("outer", "inner", "dot", "cross"):
+        return False        # large, homogeneous groups: every branch is reached by many requests
     return any(isinstance(o, (Zero, C.ScalarValue)) for o in req.operands) or req.group in (
         "ListTensor", "IndexSum", "Indexed", "conditional", "Abs", "Conj", "Real", "Imag", "as_vector", "as_matrix",
-        "div", "neg", "sub", "transpose", "pow", "outer", "inner", "dot", "math", "restricted")
+        "div", "neg", "sub", "transpose", "pow", "math", "restricted", "perp", "tr", "det", "inv", "cofac", "dev",
+        "skew", "sym", "diag", "diag_vector", "cross")
 
 
 def all_requests(tier, rng, groups=None, seed=0):
@@ -806,4 +884,5 @@ def _all_requests(P, tier, rng):
     reqs += mult_requests(P, tier)
     reqs += getitem_requests(P, tier, rng)
     reqs += misc_requests(P, tier)
+    reqs += tensoralgebra_requests(P, tier)
     return reqs
